@@ -23,10 +23,15 @@
 //! Case: {"id":"lru-12","routine":"lru","ops":["mut","save","mut","bump","save"],"cap":4,"subdirs":true}
 //! The last op is the save that is crash-enumerated; earlier ops build the history.
 //!   lru      mut bump save shutdown reopen          (save = checkpoint_to_disk)
-//!   index    add rm flush save reopen               (save = save_all, flush = flush_all_updates: also a save)
-//!   res      mark unmark save reopen                (save = ResidencyContainer::flush -> ResidencyDb::save)
-//!   disk     puta putb rma reopen                   (put -> DiskCache::write_file)
-//!   journal  rec reopen                             (rec = ExtractorCompactorBackup::record_segment)
+//!   index    add rm flush save reopen fill addf     (save = save_all, flush = flush_all_updates: also a save;
+//!                                                    fill = fill the update section of bucket 03, addf = the add_entry
+//!                                                    that finds it full and flushes + saves the bucket itself)
+//!   res      mark unmark save reopen                (save = ResidencyContainer::flush -> ResidencyDb::save; with
+//!                                                    "direct":true the ResidencyDb API is used without the container)
+//!   disk     puta putb rma reopen                   (put -> DiskCache::write_temp_file + rename; "bg":true builds the
+//!                                                    cache with new_with_background_tasks, intervals of a day)
+//!   journal  rec reopen fresh wsave                 (rec = ExtractorCompactorBackup::record_segment, wsave = save(),
+//!                                                    fresh = a new object that has not loaded the journal)
 use bytes::Bytes;
 use cascette_cache::DiskCache;
 use cascette_cache::config::DiskCacheConfig;
@@ -96,6 +101,17 @@ fn idx_key(n: u32) -> EncodingKey {
     k[..9].copy_from_slice(&idx_key9(n));
     EncodingKey::from_bytes(k)
 }
+/// keys of the "fill" op: bucket 03, disjoint from idx_key9 (tag 'f')
+fn fill_key(n: u32) -> EncodingKey {
+    let nb = n.to_be_bytes();
+    let mut k9 = [(n.wrapping_mul(91) & 0xFF) as u8, b'f', nb[0], nb[1], nb[2], nb[3], 0x3C, 0x00, 0x00];
+    let h = k9.iter().fold(0u8, |a, b| a ^ b);
+    k9[8] = (IDX_BUCKETS[0] ^ (h & 0x0F) ^ (h >> 4)) & 0x0F;
+    let mut k = [0x22u8; 16];
+    k[..9].copy_from_slice(&k9);
+    EncodingKey::from_bytes(k)
+}
+const UPD_CAP: u32 = 1260; // documented capacity of a bucket's update section (60 pages x 21 entries)
 fn idx_loc(n: u32) -> (u16, u32, u32) {
     ((n % 7 + 1) as u16, 4096 * n + 16, 100 + n)
 }
@@ -152,6 +168,8 @@ struct Case {
     cap: u32,
     subdirs: bool,
     nb: u32,
+    bg: bool,
+    direct: bool,
     raw: Value,
 }
 fn parse_case(v: &Value) -> Case {
@@ -162,6 +180,8 @@ fn parse_case(v: &Value) -> Case {
         cap: v["cap"].as_u64().unwrap_or(4) as u32,
         subdirs: v["subdirs"].as_bool().unwrap_or(true),
         nb: v["nb"].as_u64().unwrap_or(2) as u32,
+        bg: v["bg"].as_bool().unwrap_or(false),
+        direct: v["direct"].as_bool().unwrap_or(false),
         raw: v.clone(),
     }
 }
@@ -192,31 +212,46 @@ fn index_proj(m: &IndexManager) -> Value {
     for (b, e) in m.iter_entries() {
         per.entry(b).or_default().0.push(json!([hex(&e.key), e.archive_id(), e.archive_offset(), e.size]));
     }
-    for n in (0..NKEYS).chain([RESAVE_N + 1000]) {
-        let n = if n >= 1000 { n - 1000 } else { n };
+    for n in 0..NKEYS {
         let k = idx_key(n);
         if let Some(e) = m.lookup(&k) {
             let b = IndexManager::bucket_for_key(&k);
             per.entry(b).or_default().1.push(json!([n, e.archive_id(), e.archive_offset(), e.size]));
         }
     }
+    // a few keys of the fill range (first, middle, last, the one "addf" adds)
+    for n in [0, 1, 629, 1258, 1259, 5000] {
+        let k = fill_key(n);
+        if let Some(e) = m.lookup(&k) {
+            let b = IndexManager::bucket_for_key(&k);
+            per.entry(b).or_default().1.push(json!([format!("f{n}"), e.archive_id(), e.archive_offset(), e.size]));
+        }
+    }
     let mut o = Map::new();
     for (b, (mut ents, looks)) in per {
         ents.sort_by_key(canon);
-        o.insert(format!("bucket{b:02x}"), json!(canon(&json!({"entries": ents, "lookups": looks}))));
+        // all entries of the bucket, as count + digest once there are many (the "fill" histories hold 1260)
+        let ents_v = if ents.len() <= 8 { json!(ents) } else { json!({"n": ents.len(), "md5": md5hex(canon(&json!(ents)).as_bytes())}) };
+        o.insert(format!("bucket{b:02x}"), json!(canon(&json!({"entries": ents_v, "lookups": looks}))));
     }
     Value::Object(o)
 }
 
-fn res_proj(c: &ResidencyContainer, nb: u32) -> Value {
+fn res_proj_of(scan_keys: Vec<[u8; 16]>, is_resident: &dyn Fn(&[u8; 16]) -> bool, count: usize, nb: u32) -> Value {
     let mut by_key = HashMap::new();
     for n in 0..NKEYS {
         by_key.insert(res_key(n, nb), n);
     }
-    let mut scan: Vec<String> = c.scan_keys().iter().map(|k| by_key.get(k).map(|n| format!("r{n}")).unwrap_or_else(|| format!("?{}", hex(k)))).collect();
+    let mut scan: Vec<String> = scan_keys.iter().map(|k| by_key.get(k).map(|n| format!("r{n}")).unwrap_or_else(|| format!("?{}", hex(k)))).collect();
     scan.sort();
-    let resident: Vec<String> = (0..NKEYS).filter(|n| c.is_resident(&res_key(*n, nb))).map(|n| format!("r{n}")).collect();
-    json!({"residency": canon(&json!({"scan": scan, "resident": resident, "count": c.resident_count()}))})
+    let resident: Vec<String> = (0..NKEYS).filter(|n| is_resident(&res_key(*n, nb))).map(|n| format!("r{n}")).collect();
+    json!({"residency": canon(&json!({"scan": scan, "resident": resident, "count": count}))})
+}
+fn res_proj(c: &ResidencyContainer, nb: u32) -> Value {
+    res_proj_of(c.scan_keys(), &|k| c.is_resident(k), c.resident_count(), nb)
+}
+fn resdb_proj(db: &ResidencyDb, nb: u32) -> Value {
+    res_proj_of(db.scan_keys(), &|k| db.is_resident(k), db.entry_count(), nb)
 }
 
 fn disk_proj(c: &DiskCache<RibbitKey>) -> (bool, String, Value) {
@@ -257,8 +292,9 @@ fn journal_proj(b: Option<&ExtractorCompactorBackup>) -> (Value, Vec<u16>) {
 // ---------------------------------------------------------------------------
 enum World {
     Lru { l: LruManager, nmut: u32 },
-    Index { m: IndexManager, nadd: u32, live: Vec<u32> },
+    Index { m: IndexManager, nadd: u32, live: Vec<u32>, upd3: u32 },
     Res { c: ResidencyContainer, nmark: u32, live: Vec<u32> },
+    ResDirect { db: ResidencyDb, nmark: u32, live: Vec<u32> },
     Disk { c: DiskCache<RibbitKey>, nput: u32 },
     Journal { b: ExtractorCompactorBackup, nrec: u32 },
 }
@@ -268,19 +304,34 @@ fn open_res(dir: &Path) -> (ResidencyContainer, Value) {
     let r = block(c.initialize());
     (c, okerr(&r))
 }
-fn open_disk(dir: &Path, subdirs: bool) -> Result<DiskCache<RibbitKey>, String> {
+/// bg: the constructor that starts the background cleanup / sync tasks.  Their intervals are a day, so after the
+/// immediate first tick (forced here, before anything is observed) they never run during a case.
+fn open_disk(dir: &Path, subdirs: bool, bg: bool) -> Result<DiskCache<RibbitKey>, String> {
     let mut c = DiskCacheConfig::new(dir);
     c.use_subdirectories = subdirs;
-    DiskCache::<RibbitKey>::new(c).map_err(|e| e.to_string())
+    if !bg {
+        return DiskCache::<RibbitKey>::new(c).map_err(|e| e.to_string());
+    }
+    c.cleanup_interval = std::time::Duration::from_secs(24 * 3600);
+    c.sync_interval = std::time::Duration::from_secs(24 * 3600);
+    let cache = RT.with(|rt| {
+        let _g = rt.enter();
+        DiskCache::<RibbitKey>::new_with_background_tasks(c).map_err(|e| e.to_string())
+    })?;
+    for _ in 0..4 {
+        block(tokio::task::yield_now());
+    }
+    Ok(cache)
 }
 
 impl World {
     fn new(case: &Case, dir: &Path) -> World {
         match case.routine.as_str() {
             "lru" => World::Lru { l: LruManager::new(case.cap, dir.to_path_buf()), nmut: 0 },
-            "index" => World::Index { m: IndexManager::new(dir), nadd: 0, live: vec![] },
+            "index" => World::Index { m: IndexManager::new(dir), nadd: 0, live: vec![], upd3: 0 },
+            "res" if case.direct => World::ResDirect { db: ResidencyDb::new(dir.join("key_state_v8")), nmark: 0, live: vec![] },
             "res" => World::Res { c: open_res(dir).0, nmark: 0, live: vec![] },
-            "disk" => World::Disk { c: open_disk(dir, case.subdirs).expect("disk cache"), nput: 0 },
+            "disk" => World::Disk { c: open_disk(dir, case.subdirs, case.bg).expect("disk cache"), nput: 0 },
             "journal" => World::Journal { b: ExtractorCompactorBackup::new(dir), nrec: 0 },
             other => panic!("driver: unknown routine {other}"),
         }
@@ -311,7 +362,7 @@ impl World {
                 }
                 other => panic!("driver: unknown lru op {other}"),
             },
-            World::Index { m, nadd, live } => match op {
+            World::Index { m, nadd, live, upd3 } => match op {
                 "add" => {
                     let n = *nadd;
                     *nadd += 1;
@@ -319,6 +370,9 @@ impl World {
                     let r = m.add_entry(&idx_key(n), a, o, s);
                     if r.is_ok() {
                         live.push(n);
+                        if n % 2 == 0 {
+                            *upd3 += 1;
+                        }
                     }
                     okerr(&r)
                 }
@@ -327,9 +381,32 @@ impl World {
                         return json!({"ok": true, "err": "", "noop": true});
                     }
                     let n = live.remove(0);
+                    if n % 2 == 0 {
+                        *upd3 += 1;
+                    }
                     json!({"ok": m.remove_entry(&idx_key(n)), "err": ""})
                 }
-                "flush" => okerr(&m.flush_all_updates()),
+                "fill" => {
+                    // un-flushed entries of bucket 03 up to the documented capacity of its update section
+                    let mut ok = true;
+                    let mut i = 0;
+                    while *upd3 < UPD_CAP {
+                        ok &= m.add_entry(&fill_key(i), 9, 64 * i + 8, 50 + i).is_ok();
+                        i += 1;
+                        *upd3 += 1;
+                    }
+                    json!({"ok": ok, "err": "", "added": i})
+                }
+                "addf" => {
+                    // with a full section this add_entry flushes the bucket and saves it (flush_updates_for_bucket)
+                    let r = m.add_entry(&fill_key(5000), 9, 4, 77);
+                    *upd3 = 1;
+                    okerr(&r)
+                }
+                "flush" => {
+                    *upd3 = 0;
+                    okerr(&m.flush_all_updates())
+                }
                 "save" => okerr(&m.save_all()),
                 "reopen" => {
                     *m = IndexManager::new(dir);
@@ -359,6 +436,33 @@ impl World {
                 }
                 other => panic!("driver: unknown residency op {other}"),
             },
+            World::ResDirect { db, nmark, live } => match op {
+                "mark" => {
+                    let n = *nmark;
+                    *nmark += 1;
+                    live.push(n);
+                    db.mark_resident(&res_key(n, case.nb));
+                    json!({"ok": true, "err": ""})
+                }
+                "unmark" => {
+                    if live.is_empty() {
+                        return json!({"ok": true, "err": "", "noop": true});
+                    }
+                    let n = live.remove(0);
+                    db.mark_non_resident(&res_key(n, case.nb));
+                    json!({"ok": true, "err": ""})
+                }
+                "save" => okerr(&db.save()),
+                "reopen" => {
+                    let r = ResidencyDb::load(&dir.join("key_state_v8"));
+                    let v = okerr(&r);
+                    if let Ok(fresh) = r {
+                        *db = fresh;
+                    }
+                    v
+                }
+                other => panic!("driver: unknown residency op {other}"),
+            },
             World::Disk { c, nput } => match op {
                 "puta" | "putb" => {
                     let n = *nput;
@@ -366,7 +470,7 @@ impl World {
                     okerr(&block(c.put(disk_key(&op[3..]), Bytes::from(disk_val(n)))))
                 }
                 "rma" => okerr(&block(c.remove(&disk_key("a")))),
-                "reopen" => match open_disk(dir, case.subdirs) {
+                "reopen" => match open_disk(dir, case.subdirs, case.bg) {
                     Ok(fresh) => {
                         *c = fresh;
                         json!({"ok": true, "err": ""})
@@ -387,6 +491,11 @@ impl World {
                     *b = r.ok().flatten().unwrap_or_else(|| ExtractorCompactorBackup::new(dir));
                     v
                 }
+                "fresh" => {
+                    *b = ExtractorCompactorBackup::new(dir);
+                    json!({"ok": true, "err": ""})
+                }
+                "wsave" => okerr(&b.save()),
                 other => panic!("driver: unknown journal op {other}"),
             },
         }
@@ -397,6 +506,7 @@ impl World {
             World::Lru { l, .. } => lru_proj(l),
             World::Index { m, .. } => index_proj(m),
             World::Res { c, .. } => res_proj(c, case.nb),
+            World::ResDirect { db, .. } => resdb_proj(db, case.nb),
             World::Disk { c, .. } => disk_proj(c).2,
             World::Journal { b, .. } => journal_proj(Some(b)).0,
         }
@@ -471,7 +581,7 @@ fn recover(case: &Case, dir: &Path, with_resave: bool) -> (Value, Value) {
             (res, json!({"ok": ok2, "err": err2, "same": res_proj(&c2, case.nb) == mem}))
         }
         "disk" => {
-            let c = match open_disk(dir, case.subdirs) {
+            let c = match open_disk(dir, case.subdirs, false) {
                 Ok(c) => c,
                 Err(e) => return (json!({"ok": false, "err": e, "proj": {}}), skipped),
             };
@@ -482,7 +592,7 @@ fn recover(case: &Case, dir: &Path, with_resave: bool) -> (Value, Value) {
             }
             let val = Bytes::from(disk_val(RESAVE_N));
             let r1 = block(c.put(disk_key("c"), val.clone()));
-            let c2 = match open_disk(dir, case.subdirs) {
+            let c2 = match open_disk(dir, case.subdirs, false) {
                 Ok(c) => c,
                 Err(e) => return (res, json!({"ok": false, "err": e, "same": false})),
             };
@@ -551,6 +661,9 @@ fn copy_tree(src: &Path, dst: &Path) {
     }
     for f in files {
         std::fs::copy(src.join(&f), dst.join(&f)).expect("copy");
+        // the modification time is data (DiskCache keeps an entry's expiry there)
+        let mt = std::fs::metadata(src.join(&f)).and_then(|m| m.modified()).expect("mtime");
+        std::fs::File::options().write(true).open(dst.join(&f)).and_then(|h| h.set_modified(mt)).expect("set mtime");
     }
 }
 
@@ -600,7 +713,9 @@ fn history(cases_path: &str, ctx: &Path) {
 struct CaseCtx {
     case: Case,
     pre: HashMap<String, Vec<u8>>,
+    pre_mtime: HashMap<String, std::time::SystemTime>,
     writes: HashMap<String, Vec<u8>>,
+    utimes: HashMap<String, std::time::SystemTime>,
     header: Value,
 }
 static CTX: Mutex<Option<(String, std::sync::Arc<CaseCtx>)>> = Mutex::new(None);
@@ -624,14 +739,23 @@ fn load_ctx(ctx: &Path, id: &str) -> std::sync::Arc<CaseCtx> {
     let mut pre = HashMap::new();
     let (mut dirs, mut files) = (vec![], vec![]);
     walk(&cdir.join("pre"), Path::new(""), &mut dirs, &mut files);
+    let mut pre_mtime = HashMap::new();
     for f in files {
         pre.insert(f.clone(), std::fs::read(cdir.join("pre").join(&f)).expect("pre file"));
+        pre_mtime.insert(f.clone(), std::fs::metadata(cdir.join("pre").join(&f)).and_then(|m| m.modified()).expect("pre mtime"));
     }
+    let mut utimes = HashMap::new();
     let mut writes = HashMap::new();
     if let Ok(b) = std::fs::read(cdir.join("events.json")) {
         let ev: Value = serde_json::from_slice(&b).expect("events.json");
         for (k, v) in ev["writes"].as_object().expect("writes") {
             writes.insert(k.clone(), hex::decode(v.as_str().expect("hex")).expect("hex"));
+        }
+        if let Some(u) = ev["utimes"].as_object() {
+            for (k, v) in u {
+                let t = std::time::UNIX_EPOCH + std::time::Duration::new(v[0].as_u64().expect("sec"), v[1].as_u64().expect("nsec") as u32);
+                utimes.insert(k.clone(), t);
+            }
         }
     }
     // Old / New: the real recovery on the directory before the save and after the completed save
@@ -654,7 +778,7 @@ fn load_ctx(ctx: &Path, id: &str) -> std::sync::Arc<CaseCtx> {
     let header = json!({"op": "new", "case": id, "routine": case.routine, "ops": case.ops, "def": case.raw, "post": post,
                         "old": old, "new": new, "mem_new": hist["mem_new"], "save": hist["save"],
                         "roundtrip_same": new["proj"] == hist["mem_new"]});
-    let c = std::sync::Arc::new(CaseCtx { case, pre, writes, header });
+    let c = std::sync::Arc::new(CaseCtx { case, pre, pre_mtime, writes, utimes, header });
     *g = Some((id.to_string(), c.clone()));
     c
 }
@@ -690,6 +814,19 @@ fn materialise(dst: &Path, scn: &Value, c: &CaseCtx) {
             std::fs::create_dir_all(parent).expect("mkdir parent");
         }
         std::fs::write(&p, &buf).expect("write scenario file");
+        // modification time tag: "now" (leave it), "pre:<name>", "t<event>"
+        let mt = f["mt"].as_str().unwrap_or("now");
+        let t = if let Some(n) = mt.strip_prefix("pre:") {
+            Some(*c.pre_mtime.get(n).unwrap_or_else(|| panic!("driver: no pre mtime {n}")))
+        } else if let Some(i) = mt.strip_prefix('t') {
+            Some(*c.utimes.get(i).unwrap_or_else(|| panic!("driver: no utime event {i}")))
+        } else {
+            assert_eq!(mt, "now", "driver: unknown mtime tag");
+            None
+        };
+        if let Some(t) = t {
+            std::fs::File::options().write(true).open(&p).and_then(|h| h.set_modified(t)).expect("set mtime");
+        }
     }
 }
 
@@ -735,6 +872,14 @@ fn run_scenario(ctx: &Path, scn: &Value, out: &Emit) {
 
 fn main() {
     quiet_panics();
+    // DiskCache::new_with_background_tasks starts a task that runs the external command `sync` (a global file-system
+    // sync) at its first tick.  On a shared machine that can block for seconds and has nothing to do with the
+    // property; with an empty PATH the spawn fails and the task ignores it.
+    // SAFETY: single-threaded at this point.
+    #[allow(unsafe_code)]
+    unsafe {
+        std::env::set_var("PATH", "/nonexistent");
+    }
     check_tables();
     let args: Vec<String> = std::env::args().collect();
     // the sub-command may be given as a word or is implied by --cases / --scenarios
